@@ -205,6 +205,9 @@ func buildWorkflow(s *spec.Spec) (*sp.Workflow, map[string]*node) {
 		case spec.KSubStream:
 			p := components.NewStreamToSubStream(wf, ps.Name)
 			nodes[ps.Name] = &node{proc: p, in: func(string) *sp.InPort { return p.In() }, out: func(string) *sp.OutPort { return p.OutSubStream() }}
+		case spec.KManualSub:
+			p := newManualSub(wf, ps.Name)
+			nodes[ps.Name] = &node{proc: p, in: func(string) *sp.InPort { return p.InPort("in") }, out: func(string) *sp.OutPort { return p.OutPort("substream") }}
 		case spec.KConcat:
 			p := components.NewConcatenator(wf, ps.Name, ps.OutPath)
 			p.GroupByTag = ps.GroupBy
@@ -484,6 +487,41 @@ func goFuncWriteAPI(ps *spec.Proc, t *sp.Task) {
 		ins[kv.K] = kv.V
 	}
 	vproto.Emit(&vproto.Event{Ev: "end", ID: c.ID, Key: key, Pid: os.Getpid(), Status: 0, Ins: ins, Outs: outs, InProc: true})
+}
+
+// manualSub is a hand-written gathering component: it collects the IPs of its in-port and hands them on as the
+// sub-stream of one carrier IP, feeding the carrier's SubStream port itself (not through StreamToSubStream).
+type manualSub struct {
+	sp.BaseProcess
+}
+
+func newManualSub(wf *sp.Workflow, name string) *manualSub {
+	p := &manualSub{BaseProcess: sp.NewBaseProcess(wf, name)}
+	p.InitInPort(p, "in")
+	p.InitOutPort(p, "substream")
+	wf.AddProc(p)
+	return p
+}
+
+func (p *manualSub) Run() {
+	defer p.CloseAllOutPorts()
+	var members []*sp.FileIP
+	for ip := range p.InPort("in").Chan {
+		members = append(members, ip)
+	}
+	carrier, err := sp.NewFileIP("carrier_of_" + p.Name() + ".tmp")
+	if err != nil {
+		p.Fail(err)
+	}
+	sub := sp.NewInPort("members")
+	carrier.SubStream = sub
+	go func() {
+		for _, m := range members {
+			sub.Chan <- m
+		}
+		close(sub.Chan)
+	}()
+	p.OutPort("substream").Send(carrier)
 }
 
 // ---------------------------------------------------------------------------
